@@ -138,7 +138,7 @@ def overdict(v, is_bad):
             links.append(LINKS[c])
         return f"(OVErr {lst(links)} {rkind(root)})"
     if k == "panicked":
-        return f"(OVPanicked {v['f']} {v['e']})"
+        return f"(OVPanicked {v.get('f', 0)} {v.get('e', 0)})"
     if k == "digpanic":
         return "OVBug"
     if k == "diverged":
